@@ -273,7 +273,9 @@ func (r *Runner) Counts(known bool) (reach, total [32]int) {
 }
 
 // SelfPublic is the implementation's own view of the node's reachability status.
-func (r *Runner) SelfPublic() bool { return r.K.Snapshot().Reachability == p2p.ReachabilityStatusPublic.String() }
+func (r *Runner) SelfPublic() bool {
+	return r.K.Snapshot().Reachability == p2p.ReachabilityStatusPublic.String()
+}
 
 func (r *Runner) IsStatic(a boson.Address) bool    { return a.MemberOf(r.Static) }
 func (r *Runner) IsProtected(a boson.Address) bool { return a.MemberOf(r.Protect) }
